@@ -40,7 +40,44 @@ fn check_verdict(spec: &ExchangeSpec, s: &mut Sched, st: &mut Stats) -> Result<(
     let any = conds.iter().any(|c| *c);
     // Redirect and Cleanup must agree
     let (mc2, reason2) = match term {
-        Terminal::Redirect(r) => {
+        Terminal::Redirect(mut r) => {
+            // second hop: the request-side conditions (HTTP/1.0, Connection: close) travel with the request
+            let has_location = spec.resp.head.fields.iter().any(|f| f.lname() == "location");
+            let own_te = spec.body_due() && spec.req_framing == ReqFraming::Te;
+            if has_location && !own_te {
+                if let Ok(Some(nf)) = r.as_new_flow(ureq_proto::client::flow::RedirectAuthHeaders::Never) {
+                    let m2 = nf.method().clone();
+                    let nobody2 = no_body_clause(&m2, 200);
+                    let spec2 = ExchangeSpec {
+                        method: m2,
+                        req_v10: spec.req_v10,
+                        uri: String::new(),
+                        req_conn: spec.req_conn,
+                        expect: spec.expect,
+                        despite: false,
+                        req_framing: ReqFraming::Auto,
+                        extra_headers: vec![],
+                        body: vec![],
+                        await_mode: AwaitMode::NeverLook,
+                        server_pre: ServerPre::Silent,
+                        resp: RespSpec {
+                            head: RespHead::simple(200, vec![Field::new("Content-Length", "2")]),
+                            body_wire: if nobody2 { vec![] } else { b"ok".to_vec() },
+                            payload: if nobody2 { vec![] } else { b"ok".to_vec() },
+                            close_delimited: false,
+                        },
+                    };
+                    let stream2 = spec2.stream();
+                    match run_exchange(&spec2, Some(nf), &stream2, &mut Sched::canonical()).map_err(|e| format!("second hop: {}", e))? {
+                        Outcome::Done(o2, _) => {
+                            check_against_truth(&spec2, &o2, true, stream2.len()).map_err(|e| format!("second hop: {}", e))?;
+                            st.class("second_hop_verdict_checked");
+                            st.evals(1);
+                        }
+                        Outcome::Premature(_) => return Err("harness: premature".into()),
+                    }
+                }
+            }
             let c = r.proceed();
             (c.must_close_connection(), c.close_reason())
         }
@@ -274,7 +311,8 @@ and a further field, cut after the Location line / before the empty line / insid
 whenever the flow hands out a response for such a strict prefix (known finding K1) the verdict must be must-close. random \
 'decorated': C01's exchange generator under generated schedules. Oracle: must_close_connection() <=> disjunction of the five conditions evaluated on the cell; Redirect and the Cleanup state \
 after it agree; close_reason() is Some <=> must-close; its text, classified by keyword (1.0 / client / server / 100 / delimited), names a \
-condition that holds (unclassifiable text is counted, not failed); plus the complete ground-truth check of the exchange. non-trivial = \
+condition that holds (unclassifiable text is counted, not failed); plus the complete ground-truth check of the exchange; a redirect with a Location is followed and the second hop's verdict is \
+checked the same way (the request-side conditions travel with the request). non-trivial = \
 >= 2 conditions true, or exactly one on the redirect path; distinct by enumeration index.",
     assumptions: &["Connection values are whole lower-case tokens in 0..2 fields (DESIGN 5.3)"],
     exec: exec_product,
